@@ -2,7 +2,7 @@ CONSTANTS
   MaxChars = 4
   Classes = {1, 2, 3, 4}
   Widths <- WidthsT
-  Accepts = {0, 1, 2, 3, 7}
+  Accepts = {0, 1, 3, 7}
   ScriptLen = 2
 INIT Init
 NEXT Next
